@@ -377,6 +377,11 @@ func accepts(gn int, gerr error, wn int, werr error, lat latitude) bool {
 	return lat.nilOK && gerr == nil
 }
 
+// invalidWhence: none of these is io.SeekStart, io.SeekCurrent or io.SeekEnd.
+var invalidWhence = []int{3, 4, 5, 7, 8, 16, 100, 255, 256, 257, 258, 259, 512, 513, 65536, 65537, 65538, 1 << 24, 1<<24 + 1, 1 << 31, 1<<31 + 2,
+	1 << 32, 1<<32 + 1, 1<<32 + 2, 1 << 40, 1<<62 + 1, math.MaxInt, math.MaxInt - 1, -1, -2, -3, -254, -255, -256, -257, -65536, -65535, -65534,
+	-(1 << 32), -(1 << 32) + 1, -(1 << 32) + 2, math.MinInt, math.MinInt + 1, math.MinInt + 2}
+
 func (m *model) seek(offset int64, whence int) (int64, bool) {
 	var target int64
 	switch whence {
@@ -794,6 +799,11 @@ func genCase(t *rapid.T) Case {
 			}
 		case 7, 8:
 			wh := rapid.SampledFrom([]int{0, 0, 1, 1, 2, 2, 3, -1}).Draw(t, "whence")
+			if gen.Chance(t, 1, 8, "whence-odd") {
+				// invalid whence values of every magnitude and sign, among them those whose low byte / low 16 / low 32 bits
+				// spell a valid one (256, 257, 258, 65536+1, 1<<32+2, -256 ...) and the extremes
+				wh = invalidWhence[gen.Uniform(t, len(invalidWhence), "whence-invalid")]
+			}
 			off := int64(gen.Uniform(t, int(2*span)+7, "so")) - span - 3
 			if gen.Chance(t, 1, 12, "farjump") {
 				off = 1 << 33
@@ -824,6 +834,10 @@ func FuzzProp(f *testing.F) { checker.Fuzz(f, genCase) }
 // TestGrid: a few fixed histories (the two cited survivors' minimal witnesses among them).
 func TestGrid(t *testing.T) {
 	vk.SetPhase("grid")
+	// every invalid whence, in the middle of a history: the Seek is refused and the cursor stays where it was
+	for _, wh := range invalidWhence {
+		checker.Run(t, Case{Kind: "section", Off: 4, N: 20, Fault: Fault{Kind: "none"}, Ops: []Op{{K: "write", Len: 3}, {K: "seek", O: 2, Whence: wh}, {K: "write", Len: 2}, {K: "seek", O: 0, Whence: 1}, {K: "seek", O: -1, Whence: wh}, {K: "write", Len: 1}, {K: "size"}}})
+	}
 	for _, c := range []Case{
 		{Kind: "section", Off: 7, N: 8, Fault: Fault{Kind: "none"}, Ops: []Op{{K: "write", Len: 3}, {K: "write", Len: 3}, {K: "write", Len: 3}, {K: "write", Len: 1}}},
 		{Kind: "section", Off: 100, N: 8, Fault: Fault{Kind: "none"}, Ops: []Op{{K: "seek", O: 2, Whence: 0}, {K: "write", Len: 2}, {K: "seek", O: -1, Whence: 1}, {K: "write", Len: 9}, {K: "seek", O: -3, Whence: 2}, {K: "write", Len: 1}}},
